@@ -641,7 +641,19 @@ def ellipse(rep, byname):
         ok = len(sets) == 1 and sets[0][0] in ("true", "True", "1") and R.has_atom(sets[0][1], "<", "%s[%d]" % (C_, i), "$0.%s()" % dim)
         if i in (1, 3):
             ok = ok and R.has_atom(sets[0][1], ">=", "%s[%d]" % (C_, i), "0") if sets else False
+        # ... and under nothing stricter: every coordinate inside [0, dim) must be drawn (`co_ords[3] > 0` drops row 0: an ellipse whose bounding box
+        # touches the top of the view loses its cap, the painted set is neither closed nor symmetric)
+        extra = []
         if ok:
+            cn, dn = "%s[%d]" % (C_, i), "$0.%s()" % dim
+            want = {R.norm_cmp("<", cn, dn), R.norm_cmp(">=", cn, "0")}
+            for op_, l_, r_ in sets[0][1]:
+                if cn in (l_, r_) and R.norm_cmp(op_, l_, r_) not in want:
+                    extra.append("%s %s %s" % (l_, op_, r_))
+        if ok and extra:
+            rep.violation("K5-ellipse", "K5:ellipse:validity[%d]" % i, W + "ellipse.hpp", {"stricter than 0 <= c < %s()" % dim: extra,
+                          "example": "centre (a+1, b+1), semi-axes (a, b) in a view of exactly the bounding box: the reflections that land in row / column 0 are skipped"})
+        elif ok:
             rep.ok("K5-ellipse", "validity[%d] set only under the %s bounds test" % (i, dim), sets[0][0])
         else:
             rep.violation("K5-ellipse", "K5:ellipse:validity[%d]" % i, W + "ellipse.hpp", {"assignments": [(s[0], s[1][-4:]) for s in sets]})
